@@ -42,12 +42,12 @@ var props = map[string]propSpec{
 		{Pkg: "registration", Fn: "VerifC01Wrapped", Validate: 8, MustReach: []string{"issued", "not-issued"}, Panics: true, ShardBits: 2},
 		{Pkg: "registration", Fn: "VerifC01Rewrapped", Validate: 8, MustReach: []string{"issued", "not-issued"}, Panics: true, ShardBits: 2},
 		{Pkg: "registration", Fn: "VerifC06TokenRace", Validate: 4, MustReach: []string{"end"}},
-	}, Assumptions: with(), Explanation: "FetchNodeCredentials and everything under it from SSA, one harness per clause of the statement in inductive-step form: (a) arbitrary stored record vs arbitrary well-signed node-led request, (b) the server's own token with either half replaced, consumed or not, key enrolled or not, any maximum lifetime and clock, (c) registration info sealed by the server's wrapper / a foreign wrapper / garbage / a forged blob, and info re-sealed by a registered or unrelated node, each with matching or mismatching inner nonce and key; refusals leave the node records byte-identical"},
+	}, Assumptions: with(), Explanation: "FetchNodeCredentials and everything under it from SSA, one harness per clause of the statement in inductive-step form: (a) arbitrary stored record vs arbitrary well-signed node-led request, (b) the server's own token with either half replaced, consumed or not, key enrolled or not, any maximum lifetime and clock, (c) registration info sealed by the server's wrapper / a foreign wrapper / garbage / a forged blob, and info re-sealed by a registered or unrelated node, each with matching or mismatching inner nonce and key, and with the requester free to fill the bundle fields an honest node leaves empty; a token used up or revoked between lookup and removal (one interleaving point, strict model storage and the real file back end) enrolls nobody; refusals leave the node records byte-identical"},
 	"C02": {Harnesses: []harnessSpec{
 		{Pkg: "protocol", Fn: "VerifC02Auth", Validate: 16, MustReach: []string{"authenticated", "rejected"}, Panics: true, ShardBits: 4},
 		{Pkg: "protocol", Fn: "VerifC02Fetch", Validate: 8, MustReach: []string{"accept-returned"}, Panics: true},
 		{Pkg: "protocol", Fn: "VerifC02FetchAndAuth", Validate: 4, MustReach: []string{"accept-returned"}, Panics: true},
-	}, Assumptions: with("TLS handshake contract model (DESIGN 3.5); native twin: a real crypto/tls client over a loopback connection (vf.AdversaryConn)", "X.509 chain-building model of DESIGN 3.4 (depth 2, validity, EKU, DNS name)"), Explanation: "the real InterceptingListener.Accept (TLS callback, GenerateServerCertificates, ServerConfig and its callbacks, VerifyConnection) against a peer whose certificate issuer, key possession, request key, nonce signature key, node-ID hint, skip flag, common name and preferred root are all symbolic, with two records present or removed and both storage kinds; a fetch handshake with a foreign entry before, after or absent never yields a connection"},
+	}, Assumptions: with("TLS handshake contract model (DESIGN 3.5); native twin: a real crypto/tls client over a loopback connection (vf.AdversaryConn)", "X.509 chain-building model of DESIGN 3.4 (depth 2, validity, EKU, DNS name)"), Explanation: "the real InterceptingListener.Accept (TLS callback, GenerateServerCertificates, ServerConfig and its callbacks, VerifyConnection) against a peer whose certificate issuer, key possession, request key, nonce signature key, node-ID hint, skip flag, common name and preferred root are all symbolic, with two records present or removed and both storage kinds; a fetch handshake with a foreign entry before, after or absent never yields a connection, nor does a hello that carries both a fetch request and an authentication request replayed from a registered node, in either order"},
 	"C03": {Harnesses: []harnessSpec{
 		{Pkg: "registration", Fn: "VerifC03Validate", Validate: 16, MustReach: []string{"accepted", "rejected"}, Panics: true, CrossSolver: "z3"},
 		{Pkg: "registration", Fn: "VerifC03EntryPoints", Validate: 16, MustReach: []string{"authorize-accepted", "authorize-rejected", "fetch-done"}, Panics: true},
@@ -61,7 +61,7 @@ var props = map[string]propSpec{
 		{Pkg: "protocol", Fn: "VerifC04NodeRefuses", Validate: 4, MustReach: []string{"accepted", "refused"}},
 		{Pkg: "protocol", Fn: "VerifC04ShortRandom", Validate: 3, MustReach: []string{"authorized", "refused"}},
 	}, Assumptions: with("clock assumption: the honest flow finishes within 1 s of symbolic time (vf.ShortScenario)", "the symbolic run uses the harness's marshal-based storage; file and store-once back ends are covered by C19"),
-		Explanation: "the four honest enrollment flows from SSA (storage wrappers on/off on both sides, application state on/off) with every issued certificate inspected; node-side refusal of foreign or wrong-nonce responses; full-entropy server key"},
+		Explanation: "the four honest enrollment flows from SSA (storage wrappers on/off on both sides, application state on/off, roots minted under any certificate lifetime between 2 h and 30 d) with every issued certificate inspected; node-side refusal of foreign, wrong-nonce or wrong-server-key responses and acceptance of the genuine response afterwards; full-entropy server key"},
 	"C05": {Harnesses: []harnessSpec{
 		{Pkg: "tls", Fn: "VerifC05KeyIdPath1", Validate: 8, MustReach: []string{"certificates-generated", "rejected"}, Panics: true, CrossSolver: "z3"},
 		{Pkg: "tls", Fn: "VerifC05KeyIdPath2", ShardBits: 2, Validate: 8, MustReach: []string{"certificates-generated", "rejected"}, Panics: true},
@@ -75,14 +75,14 @@ var props = map[string]propSpec{
 		{Pkg: "registration", Fn: "VerifC06ExistingKey", Validate: 4, MustReach: []string{"enrolled", "refused"}},
 		{Pkg: "registration", Fn: "VerifC06Tamper", Validate: 8, MustReach: []string{"enrolled", "refused"}},
 		{Pkg: "registration", Fn: "VerifC06TokenRace", Validate: 4, MustReach: []string{"end"}},
-	}, Assumptions: with(), Explanation: "real token creation, honest node side and FetchNodeCredentials: single use by the same or another node, expiry for any maximum lifetime and clock, no enrollment over an existing record (with and without storage wrapper), and five tamperings of a stored token record against a second token with arbitrary creation instants; the HMAC key is never persisted"},
+	}, Assumptions: with(), Explanation: "real token creation, honest node side and FetchNodeCredentials: single use by the same or another node (first use with or without skip-storage), expiry for any maximum lifetime and clock, no enrollment over an existing record (with and without storage wrapper), a token used up or revoked between lookup and removal, and six tamperings of a stored token record against a second token with arbitrary creation instants; the HMAC key is never persisted"},
 	"C07": {Harnesses: []harnessSpec{
 		{Pkg: "protocol", Fn: "VerifC07RogueServer", Validate: 8, MustReach: []string{"connected", "refused"}, ShardBits: 2},
 		{Pkg: "protocol", Fn: "VerifC07OwnServer", Validate: 8, MustReach: []string{"end"}},
 		{Pkg: "protocol", Fn: "VerifC07Pending", Validate: 4, MustReach: []string{"pending", "end"}, ShardBits: 3},
 		{Pkg: "protocol", Fn: "VerifC07Dial", Validate: 6, MustReach: []string{"only-rogue-peers", "own-server-answers"}, ShardBits: 2},
 	}, Assumptions: with("client-side TLS handshake contract model (DESIGN 3.5): with InsecureSkipVerify the only guards are VerifyConnection and the server's proof of possession of its leaf key; native twin: a real crypto/tls server (vf.RogueServerConn)", "protocol.Dial runs whole; its outgoing connections are answered by scripted peers (engine: (*net.Dialer).DialContext hands out the peers registered with vf.DialScript; native: a loopback listener splices each accepted connection onto the peer), so name resolution, unix sockets and dial errors other than a refused connection are outside; the server side of a handshake with the node's own server is the listener's real TLS callback (engine) / a real Accept (native)"),
-		Explanation: "real ClientConfigs (nonce, signing, ALPN assembly, chain filtering) and its VerifyConnection / GetClientCertificate callbacks against rogue servers (stale certificate for another nonce, foreign root, self-signed, another node's certificate; with or without the leaf key) for each configuration and dial option set; and against the node's own server when only one of its two roots survives; the pending-authorization path (not-authorized error, nothing stored, success with the same key after authorization) with both sides of the handshake running the library's code"},
+		Explanation: "real ClientConfigs (nonce, signing, ALPN assembly, chain filtering) and its VerifyConnection / GetClientCertificate callbacks against rogue servers (stale certificate for another nonce, foreign root, self-signed, another node's certificate; with or without the leaf key) for each configuration and dial option set; and against the node's own server when only one of its two roots survives; the pending-authorization path (not-authorized error, nothing stored, success with the same key after authorization) with both sides of the handshake running the library's code; the whole of protocol.Dial (credentials held, or fetched on the first connection of the same call) over scripted peers: own server, rogue peers only, a rogue peer first and the own server next"},
 	"C08": {Harnesses: []harnessSpec{
 		{Pkg: "rotation", Fn: "VerifC08Rotate", Validate: 16, MustReach: []string{"nothing", "promote", "remint", "startover"}, CrossSolver: "z3"},
 	}, Assumptions: with("clock assumption: one rotation call takes < 100 ms and ends before the promoted root expires"), Explanation: "one RotateRootCertificates call from absent or stored roots whose four validity instants are free integers (every ordering relative to now at once), any positive lifetime and skews, with or without reinitialisation: exact decision table, persisted = returned incl. labels, exact minted windows with the half-life shift, overlap, current valid"},
@@ -95,7 +95,7 @@ var props = map[string]propSpec{
 	"C10": {Harnesses: []harnessSpec{
 		{Pkg: "rotation", Fn: "VerifC10Rotate", Validate: 2, MustReach: []string{"rotated", "refused"}, Panics: true},
 		{Pkg: "rotation", Fn: "VerifC10Adversary", Validate: 16, MustReach: []string{"rotated", "refused"}, Panics: true, ShardBits: 4},
-	}, Assumptions: with(), Explanation: "RotateNodeCredentials from an arbitrary stored state (two records of the node in either order, optional previous key, another node) and an arbitrary request (payload key, identification by key or node ID, fresh or registered new key, inner nonce of any length, inner signature key, caller state option); plus an honest two-enrollment history with replay"},
+	}, Assumptions: with(), Explanation: "RotateNodeCredentials from an arbitrary stored state (two records of the node in either order, optional previous key, another node) and an arbitrary request (payload key, identification by key, by a known or by an unknown node ID, stateless old record, fresh or registered new key, inner nonce of any length, inner signature key, caller state option); plus an honest two-enrollment history with replay"},
 	"C11": {Harnesses: []harnessSpec{
 		{Pkg: ".", Fn: "VerifC11Arbitrary", Validate: 8, MustReach: []string{"returned"}, Panics: true},
 		{Pkg: ".", Fn: "VerifC11RoundTrip", Validate: 8, MustReach: []string{"decrypted", "refused"}, Panics: true},
@@ -109,7 +109,7 @@ var props = map[string]propSpec{
 		{Pkg: "types", Fn: "VerifC12Roots", Validate: 8, MustReach: []string{"loaded", "load-refused"}},
 		{Pkg: "types", Fn: "VerifC12Token", Validate: 8, MustReach: []string{"loaded", "load-refused"}},
 	}, Assumptions: with("secrecy is a derivability check on provenance terms (a secret may reach storage only below an AEAD seal or a one-way function); natively replayed as bytes.Contains on the marshalled message", "the storage wrapper is a real go-kms-wrapping aead wrapper executed from SSA"),
-		Explanation: "Store/Load of all four record types with a storage wrapper over a recording storage: secrecy of every private key / nonce / creation time, round trip, refusal without or with another wrapper, transplanted sealed fields"},
+		Explanation: "Store/Load of all four record types with a storage wrapper over a recording storage: secrecy of every private key / nonce / creation time, round trip (also of a value stored twice or loaded and stored again), refusal without or with another wrapper, transplanted sealed fields"},
 	"C13": {Harnesses: []harnessSpec{
 		{Pkg: "rotation", Fn: "VerifC13RotateFaults", Validate: 16, MustReach: []string{"fault-hit", "success", "error"}, CrossSolver: "z3"},
 		{Pkg: "rotation", Fn: "VerifC13NodeRotationFaults", Loop: 16, Validate: 8, MustReach: []string{"fault-hit", "rotated", "failed"}},
@@ -123,7 +123,7 @@ var props = map[string]propSpec{
 		{Pkg: "registration", Fn: "VerifC13NodeSideFaults", Validate: 8, MustReach: []string{"fault-hit", "created", "creation-failed", "handled", "handling-failed"}},
 		{Pkg: "tls", Fn: "VerifC13GenerateFaults", Validate: 8, MustReach: []string{"fault-hit", "generated", "failed"}},
 	}, Assumptions: with("single fault per call; a failing operation fails without applying (faults that lie and crashes mid-call are outside the claim)", "the failing operation's index and error kind (generic, ErrNotFound, context.Canceled) are symbolic; each harness asserts that the call makes no more storage operations than the index range covers (the unwinding check of the fault position)"),
-		Explanation: "nine flows (root rotation with and without reinitialisation, node rotation, authorize, node-led fetch, wrapper fetch, token creation, token fetch, node-side create/handle, server-certificate generation) over a fault injector with symbolic failing-operation index and error kind"},
+		Explanation: "ten flows (root rotation with and without reinitialisation, node rotation, authorize, node-led fetch, wrapper fetch, token creation, token fetch, node-side create/handle, server-certificate generation) over a fault injector with symbolic failing-operation index and error kind; plus the token used up by a competing request between lookup and removal"},
 	"C14": {Harnesses: []harnessSpec{
 		{Pkg: "protocol", Fn: "VerifC14ArbitraryAlpn", Validate: 8, MustReach: []string{"end"}, Panics: true},
 		{Pkg: "protocol", Fn: "VerifC14ArbitraryAlpn4", Validate: 8, MustReach: []string{"end"}, Panics: true, ThoroughOnly: true, ShardBits: 4},
@@ -131,7 +131,7 @@ var props = map[string]propSpec{
 		{Pkg: "protocol", Fn: "VerifC14Accept", Validate: 16, MustReach: []string{"peer-rejected", "peer-accepted", "end"}, Panics: true, ShardBits: 2},
 		{Pkg: "protocol", Fn: "VerifC14AcceptThenHonest", Validate: 8, MustReach: []string{"peer-rejected", "honest-node-connected"}, Panics: true, ShardBits: 3},
 	}, Assumptions: with("crypto/tls's own parsing of raw bytes is trusted not to panic", "TLS handshake contract model (DESIGN 3.5); a peer's fatal alert reaches the server as an error shaped like *net.OpError (Temporary() == false)", "ALPN names are 1..255 bytes (TLS cannot carry others)"),
-		Explanation: "the TLS callback on 2-3 arbitrary ALPN strings (stubbed and real callees) and Accept against arbitrary-ALPN, non-TLS and aborting peers, followed by an honest node, a base-listener failure and closure"},
+		Explanation: "the TLS callback on 2-3 arbitrary ALPN strings (stubbed and real callees) and Accept against arbitrary-ALPN, no-ALPN, non-TLS, aborting and resetting peers, followed by an honest node, a base-listener failure and closure"},
 	"C15": {Harnesses: []harnessSpec{
 		{Pkg: "protocol", Fn: "VerifC15WriteSetStubbed", Loop: 24, Validate: 8, MustReach: []string{"end"}},
 		{Pkg: "protocol", Fn: "VerifC15WriteSet", Loop: 24, Validate: 8, MustReach: []string{"end"}, ShardBits: 4},
@@ -146,7 +146,7 @@ var props = map[string]propSpec{
 		{Pkg: "net", Fn: "VerifC17Routing", Validate: 16, MustReach: []string{"delivered-to-special", "delivered-to-auth", "delivered-to-unauth", "closed-no-listener", "end"}, Panics: true, ShardBits: 4},
 		{Pkg: "net", Fn: "VerifC17LateRegistration", Validate: 4, MustReach: []string{"delivered-to-the-late-listener", "second-connection-has-no-listener", "end"}, Panics: true},
 	}, Assumptions: with("one schedule per path: goroutines are sequentialised coroutines with rendezvous channels (no claim about interleavings, see C18)", "the application's base TLS configuration offers no library-prefixed protocol names", "a mis-routed connection shows up as a deadlock of the harness (it accepts only from the designated sub-listener)"),
-		Explanation: "real SplitListener.Start/GetListener and MultiplexingListener over the real InterceptingListener.Accept: every subset of {specific, non-specific, unauthenticated} sub-listeners, native-connection setting, an authenticated node or a plain TLS client offering an arbitrary extra protocol name (incl. the reserved ones), then base-listener closure"},
+		Explanation: "real SplitListener.Start/GetListener and MultiplexingListener over the real InterceptingListener.Accept: every subset of {specific, non-specific, unauthenticated} sub-listeners, native-connection setting, an authenticated node or a plain TLS client offering an arbitrary extra protocol name (incl. the reserved ones), then base-listener closure; a sub-listener registered between two connections receives the second"},
 	"C19": {Harnesses: []harnessSpec{
 		{Pkg: "storage/inmem", Fn: "VerifC19InmemStep", Validate: 16, MustReach: []string{"end"}},
 		{Pkg: "storage/file", Fn: "VerifC19FileStep", Validate: 16, MustReach: []string{"end"}},
